@@ -6,11 +6,13 @@
 mod buf;
 mod cfg;
 mod e1;
+mod e2;
 mod gen_cfg;
 mod known;
 mod model;
 mod ops;
 mod panics;
+mod props_conc;
 mod props_seq;
 mod runner;
 
@@ -61,7 +63,7 @@ impl Ctx {
             let what = known::open_findings(&self.prop)
                 .iter()
                 .find(|f| &f.id == k)
-                .map(|f| f.what.clone())
+                .map(|f| f.what.chars().take(220).collect::<String>())
                 .unwrap_or_default();
             println!("KNOWN-FINDING: property={} {k}: {what} (hit {n} times)", self.prop);
         }
@@ -114,6 +116,8 @@ pub fn geometry_features() -> &'static str {
 fn dispatch(prop: &str, ctx: &Ctx) -> Finish {
     if let Some(spec) = props_seq::spec_for(prop) {
         props_seq::run_spec(&spec, ctx)
+    } else if let Some(spec) = props_conc::spec_for(prop) {
+        props_conc::run_spec(&spec, ctx)
     } else {
         Finish::Inconclusive(format!("unknown property {prop}"))
     }
@@ -125,6 +129,10 @@ fn replay_doc(prop: &str, doc: &Value) -> Option<String> {
         "seq" => {
             let case: e1::SeqCase = serde_json::from_value(doc["case"].clone()).unwrap();
             props_seq::replay(prop, &case)
+        }
+        "conc" => {
+            let case: e2::ConcCase = serde_json::from_value(doc["case"].clone()).unwrap();
+            props_conc::replay(prop, &case)
         }
         e => panic!("unknown engine {e}"),
     }
@@ -183,7 +191,8 @@ fn main() {
         Some("check") => {
             let prop = args.get(2).expect("property id").clone();
             let ctx = Ctx {
-                prop: prop.clone(),
+                // "C04c" = concurrent phase of property C04
+                prop: prop.trim_end_matches('c').to_string(),
                 tier: arg_value(&args, "--tier").unwrap_or("quick".into()),
                 seed: arg_value(&args, "--seed")
                     .and_then(|s| s.parse().ok())
